@@ -1211,6 +1211,7 @@ class UordMoveChange:
         if len(r) <= ix["B"] or r[1] != "0" or rc(r[2]) != 0 or rc(r[3]) != 0:
             return (None, "the generated module or trees were rejected: " + " | ".join(r[1:4])[:200])
         a = r[ix["A"]]
+        first = None
         for opts in (DIFF_DEFAULTS, 0):
             what = "%s, diff options %d" % (kind, opts)
             if r[ix["d", opts]] != "0":
@@ -1221,8 +1222,11 @@ class UordMoveChange:
                 return (tag, "lyd_diff_reverse_all failed (%s): %s" % (what, r[ix["rev", opts]]))
             if not r[ix["ap", opts]].startswith("0"):
                 return (tag, "applying the reversed diff on B failed (%s): %s" % (what, r[ix["ap", opts]]))
+            if "!" in r[ix["ap", opts]]:
+                # (fixed finding uord-apply-move-first-sibling a54f28a)
+                first = first or (None, "lyd_diff_apply_all of the reversed diff leaves *data behind the first sibling (%s)" % what)
             if not opts and rc(r[ix["val", opts]]) != 0:
                 return (tag, "the tree after the reversed diff is not valid (%s): %s" % (what, r[ix["val", opts]]))
             if r[ix["res", opts]] != a:
                 return (tag, "apply(reverse(diff(A,B)),B) differs from A (%s):\n%s" % (what, kn_delta(r[ix["res", opts]], a)))
-        return None
+        return first
